@@ -387,6 +387,8 @@ def spec_call(ev, n, e):
         return Val(ceil_int(_real(ev, ev.ev(e.args[0]), e).t), INT)
     if n == "floor":
         return Val(z3.ToInt(_real(ev, ev.ev(e.args[0]), e).t), INT)
+    if n == "keys":
+        return dict_keys(ev, ev.ev(e.args[0]))
     if n == "real":
         return _real(ev, ev.ev(e.args[0]), e)
     if n == "xr":
@@ -557,19 +559,77 @@ def _retype_local(ev, target, newval):
 
 
 def dict_keys(ev, D):
-    raise Unsupported("dict")
+    """the key list of a dict: the dict object doubles as the (insertion-ordered) list of its keys.  Keys are objects compared
+    by identity (closed world: no __eq__/__hash__ overrides), so `k in d` is the ghost inverse index of that list."""
+    if D.ty.k != "dict":
+        raise Unsupported("dict operation on %s" % D.ty)
+    if not reflike(D.ty.a[0]):
+        raise Unsupported("dict keyed by %s (only object keys are modelled)" % D.ty.a[0])
+    return Val(D.t, Ty("list", (D.ty.a[0],), D.ty.opt))
+
+
+def _dv(ev, D):
+    key = "dv:" + ev.ct.erase(D.ty)
+    ev.u._key_ty[key] = D.ty.a[1]
+    return key, ev.u.get_arr(ev.st, key, D.ty.a[1])
 
 
 def dict_method(ev, D, name, e):
+    if name == "keys" and not e.args:
+        return dict_keys(ev, D)
     raise Unsupported("dict method %s" % name)
 
 
 def dict_get(ev, D, k, node):
-    raise Unsupported("dict")
+    K = dict_keys(ev, D)
+    k = ev.it.coerce(k, D.ty.a[0], ev.st, node, ev.frame, spec=ev.spec)
+    if not ev.spec:
+        if D.ty.opt:
+            ev.need(D.t != 0, "none-subscript", node)
+        ev.need(ev.contains(K, k), "key-error", node)
+    key, A = _dv(ev, D)
+    t = A[D.t][k.t]
+    vty = D.ty.a[1]
+    if not ev.spec and reflike(vty) and not vty.opt:
+        f = z3.Implies(ev.contains(K, k), t > 0)
+        ev.st.pc.append(z3.Implies(z3.And(*ev.guard), f) if ev.guard else f)
+    return Val(t, vty)
 
 
 def dict_set(ev, D, k, v, node):
-    raise Unsupported("dict")
+    if ev.spec:
+        raise Unsupported("dict store in spec")
+    K = dict_keys(ev, D)
+    e, el = ev.lkeys(K)
+    k = ev.it.coerce(k, D.ty.a[0], ev.st, node, ev.frame)
+    v = ev.it.coerce(v, D.ty.a[1], ev.st, node, ev.frame)
+    if D.ty.opt:
+        ev.need(D.t != 0, "none-subscript", node)
+    if not D.ty.a[0].opt:
+        ev.need(k.t > 0, "none-key", node)
+    n = ev.llen(K)
+    old = ev.lelts(K)
+    oi = ev.u.get_arr(ev.st, "idx:" + e, el)[D.t]
+    had = z3.And(oi[k.t] >= 0, oi[k.t] < n, old[oi[k.t]] == k.t)
+    key, A = _dv(ev, D)
+    ev.it.frame_check(ev.st, key, D.t, ev.u.where(node, ev.frame), ev.frame)
+    # (conservative: the key list must be in the write frame even when the key is already present)
+    ev.it.frame_check(ev.st, "elt:" + e, D.t, ev.u.where(node, ev.frame), ev.frame)
+    mode = getattr(ev.u.contract, "dictstore", "either")
+    if mode == "update":
+        # the contract declares that this function only overwrites existing entries: proved per store, then no case split
+        ev.need(had, "dict-store-existing-key", node)
+        ev.st.pc.append(z3.Implies(z3.And(*ev.guard), had) if ev.guard else had)
+    elif mode == "insert":
+        ev.need(z3.Not(had), "dict-store-new-key", node)
+        ev.st.pc.append(z3.Implies(z3.And(*ev.guard), z3.Not(had)) if ev.guard else z3.Not(had))
+        ev._put_list(K, n + 1, z3.Store(old, n, k.t), z3.Store(oi, k.t, n), None)
+    else:
+        inner = z3.If(had, old, z3.Store(old, n, k.t))
+        newidx = z3.Store(oi, k.t, z3.If(had, oi[k.t], n))
+        ev._put_list(K, z3.If(had, n, n + 1), inner, newidx, None)
+    ev.u.put_arr(ev.st, key, z3.Store(A, D.t, z3.Store(A[D.t], k.t, v.t)))
+    return Val(z3.IntVal(0), NONE)
 
 
 def list_comp(ev, e, want):
